@@ -28,7 +28,7 @@ ASSUMPTIONS = [
 FLOORS = {'extractions': 300, 'focus_evaluations': 1000, 'depth2_focus': 50,
           'range_focus': 30, 'name_focus': 10, 'after_evaluation': 50,
           'with_changes': 100, 'changes_by_name': 5,
-          'derived_originals': 100}
+          'derived_originals': 100, 'frozen_formula_models': 50}
 ANCHOR_FUNCS = {'xlcalculator/model.py': ['ModelCompiler.extract']}
 TIMEOUT = {'quick': 600, 'thorough': 3000}
 
@@ -150,6 +150,18 @@ def run(ctx):
                          {'cells': build.dict_of(wb)}, monitor='construction',
                          group='build')
                 break
+            # a formula kept for reference only (XLFormula.evaluate False):
+            # the cell answers its stored value, in the extract as well
+            frozen = None
+            if rng.random() < 0.3:
+                fk = rng.choice(m.formulas)
+                fc = original.cells.get(build.addr(fk))
+                if fc is not None and fc.formula is not None and \
+                        hasattr(fc.formula, 'evaluate'):
+                    fc.formula.evaluate = False
+                    fc.value = 4242
+                    frozen = fk
+                    ctx.event('frozen_formula_models')
             ev_o = Evaluator(original)
             if after_eval:
                 ctx.event('after_evaluation')
@@ -238,6 +250,8 @@ def run(ctx):
                 ctx.event('with_changes')
             ev_x = Evaluator(extracted)
             wbc = wb.copy()
+            if frozen is not None:
+                wbc.cells[frozen] = 4242
             rounds = [[]] + [changes]
             bad = False
             for ri, chg in enumerate(rounds):
@@ -277,7 +291,10 @@ def run(ctx):
                             f'-> {go}, reference {want} (focus set '
                             f'{focus_addrs}, changes {chg}, original '
                             f'evaluated before extraction: {after_eval}, '
-                            f'{prov} model)',
+                            f'{prov} model'
+                            + (f', {build.addr(frozen)} holds 4242 with its '
+                               f'formula switched off' if frozen else '')
+                            + ')',
                             {'cells': build.dict_of(wb),
                              'original_model': prov,
                              'focus': focus_addrs, 'element': f,
